@@ -1452,6 +1452,9 @@ func (_mul) exec(vm *vm) {
 		}
 	case *valueBigInt:
 		if right, ok := right.(*valueBigInt); ok {
+			if (*big.Int)(left).BitLen()+(*big.Int)(right).BitLen() > maxBigIntBits+1 {
+				vm.r.throwBigIntTooBig()
+			}
 			result = (*valueBigInt)(new(big.Int).Mul((*big.Int)(left), (*big.Int)(right)))
 			goto end
 		}
@@ -1483,6 +1486,12 @@ func (_exp) exec(vm *vm) {
 		if y, ok := y.(*valueBigInt); ok {
 			if (*big.Int)(y).Cmp(big.NewInt(0)) < 0 {
 				panic(vm.r.newError(vm.r.getRangeError(), "exponent must be positive"))
+			}
+			if bx, by := (*big.Int)(x), (*big.Int)(y); bx.BitLen() > 1 {
+				// |x| >= 2: the result has about BitLen(x) * y bits
+				if !by.IsUint64() || by.Uint64() > maxBigIntBits || uint64(bx.BitLen()-1)*by.Uint64() > maxBigIntBits {
+					vm.r.throwBigIntTooBig()
+				}
 			}
 			result = (*valueBigInt)(new(big.Int).Exp((*big.Int)(x), (*big.Int)(y), nil))
 			goto end
@@ -1812,6 +1821,43 @@ type _sal struct{}
 
 var sal _sal
 
+// maxBigIntBits bounds the size of the BigInt results of <<, ** and asIntN/asUintN: a larger result is a RangeError
+// (ECMA-262 leaves the maximum BigInt size to the implementation; without a bound the host runs out of memory).
+const maxBigIntBits = 1 << 30
+
+func (r *Runtime) throwBigIntTooBig() {
+	panic(r.newError(r.getRangeError(), "Maximum BigInt size exceeded"))
+}
+
+// bigIntShift is BigInt::leftShift(x, count) (signedRightShift is the same with the count negated).
+func (r *Runtime) bigIntShift(x, count *big.Int, right bool) *big.Int {
+	neg := count.Sign() < 0
+	if right {
+		neg = !neg
+	}
+	if !count.IsUint64() && !(count.Sign() < 0 && new(big.Int).Neg(count).IsUint64()) || new(big.Int).Abs(count).Cmp(big.NewInt(maxBigIntBits)) > 0 {
+		// the count itself is beyond any representable size
+		if neg {
+			if x.Sign() < 0 {
+				return big.NewInt(-1)
+			}
+			return new(big.Int)
+		}
+		if x.Sign() == 0 {
+			return new(big.Int)
+		}
+		r.throwBigIntTooBig()
+	}
+	n := uint(new(big.Int).Abs(count).Uint64())
+	if neg {
+		return new(big.Int).Rsh(x, n)
+	}
+	if x.Sign() != 0 && uint(x.BitLen())+n > maxBigIntBits {
+		r.throwBigIntTooBig()
+	}
+	return new(big.Int).Lsh(x, n)
+}
+
 func (_sal) exec(vm *vm) {
 	left := toNumeric(vm.stack[vm.sp-2])
 	right := toNumeric(vm.stack[vm.sp-1])
@@ -1819,12 +1865,7 @@ func (_sal) exec(vm *vm) {
 
 	if left, ok := left.(*valueBigInt); ok {
 		if right, ok := right.(*valueBigInt); ok {
-			n := uint((*big.Int)(right).Uint64())
-			if (*big.Int)(right).Sign() < 0 {
-				result = (*valueBigInt)(new(big.Int).Rsh((*big.Int)(left), n))
-			} else {
-				result = (*valueBigInt)(new(big.Int).Lsh((*big.Int)(left), n))
-			}
+			result = (*valueBigInt)(vm.r.bigIntShift((*big.Int)(left), (*big.Int)(right), false))
 			goto end
 		}
 		panic(errMixBigIntType)
@@ -1850,12 +1891,7 @@ func (_sar) exec(vm *vm) {
 
 	if left, ok := left.(*valueBigInt); ok {
 		if right, ok := right.(*valueBigInt); ok {
-			n := uint((*big.Int)(right).Uint64())
-			if (*big.Int)(right).Sign() < 0 {
-				result = (*valueBigInt)(new(big.Int).Lsh((*big.Int)(left), n))
-			} else {
-				result = (*valueBigInt)(new(big.Int).Rsh((*big.Int)(left), n))
-			}
+			result = (*valueBigInt)(vm.r.bigIntShift((*big.Int)(left), (*big.Int)(right), true))
 			goto end
 		}
 		panic(errMixBigIntType)
